@@ -300,3 +300,103 @@ Section Puts.
     - exact Hgc.
   Qed.
 End Puts.
+
+(* ------------------------------------------------------------------------------------ *)
+(* GcWriteBack *)
+
+Lemma gderef_dead1 v a w now : gderef v a = Some w -> deleted_or_expired a now = deleted_or_expired w now.
+Proof.
+  unfold gderef, deref. destruct (is_ptr a).
+  - destruct (read_ptr (gv v) a) as [r|]; [|discriminate]. intros [= <-]. now rewrite dead_clr.
+  - now intros [= ->].
+Qed.
+
+Lemma gview_of_gderef v a w : gderef v a = Some w -> view (gv v) a = w.
+Proof. unfold gderef. apply view_of_deref. Qed.
+
+Lemma wb_ok_winner v d fid idx w :
+  lsm_wf d -> wb_ok v d fid idx w ->
+  exists e0, db_get d (e_key w) (e_ver w) = Some e0 /\ e_ver e0 = e_ver w /\ gderef v e0 = Some w
+             /\ In e0 (all_entries d) /\ e_key e0 = e_key w.
+Proof.
+  intros Hwf [_ H]. destruct (H (e_ver w) ltac:(lia)) as (e0 & G & Hle & Heq).
+  destruct (db_get_some _ _ _ _ Hwf G) as (A & B & C & _).
+  assert (e_ver e0 = e_ver w) by lia. exists e0. repeat split; auto.
+Qed.
+
+Lemma wb_norm v d fid idx w : wb_ok v d fid idx w -> norm w = w.
+Proof. intros [(rs & r & _ & _ & ->) _]. apply norm_norm. Qed.
+
+Lemma writeback_inv d v g todel it dmax now v' pes :
+  Inv d v (Some g) todel it dmax now -> g_scanned g = true ->
+  write_req v (map snd (g_wb g)) = (v', pes) ->
+  Inv (apply_entries d pes) v' (Some (mkGc (g_fid g) (g_clamp g) true [])) todel it dmax now
+  /\ forall k ts, gvis v' (apply_entries d pes) now k ts = gvis v d now k ts.
+Proof.
+  intros I Hsc W.
+  pose proof (i_wf _ _ _ _ _ _ _ I) as Hwf.
+  destruct (i_gc _ _ _ _ _ _ _ I) as (Hfid & _ & Hg). destruct (Hg Hsc) as [Hwb HJ]. clear Hg.
+  assert (Hws: forall w, In w (map snd (g_wb g)) -> exists idx, In (idx, w) (g_wb g)).
+  { intros w Hw. apply in_map_iff in Hw. destruct Hw as ([idx w'] & <- & Hin). eauto. }
+  assert (HA: forall e x, In e (map snd (g_wb g)) -> In x (all_entries d) -> e_key x = e_key e -> e_ver x = e_ver e ->
+               gderef v x = Some (norm e)).
+  { intros e x He Hx Hk Hv. destruct (Hws _ He) as [idx Hin]. pose proof (Hwb _ _ Hin) as Ok.
+    rewrite (wb_norm _ _ _ _ _ Ok).
+    destruct (wb_ok_winner _ _ _ _ _ Hwf Ok) as (e0 & _ & E1 & E2 & E3 & E4).
+    rewrite <- E2. apply (i_agree _ _ _ _ _ _ _ I); auto; congruence. }
+  assert (HB: forall a b, In a (map snd (g_wb g)) -> In b (map snd (g_wb g)) -> e_key a = e_key b -> e_ver a = e_ver b -> norm a = norm b).
+  { intros a b Ha Hb Hk Hv. destruct (Hws _ Ha) as [ia Hia]. destruct (Hws _ Hb) as [ib Hib].
+    pose proof (Hwb _ _ Hia) as Oa. pose proof (Hwb _ _ Hib) as Ob.
+    rewrite (wb_norm _ _ _ _ _ Oa), (wb_norm _ _ _ _ _ Ob).
+    destruct (wb_ok_winner _ _ _ _ _ Hwf Oa) as (e0 & G0 & _ & E2 & _).
+    destruct (wb_ok_winner _ _ _ _ _ Hwf Ob) as (e1 & G1 & _ & F2 & _).
+    rewrite Hk, Hv in G0. congruence. }
+  pose proof (fresh_next_of_bound _ (i_bound _ _ _ _ _ _ _ I)) as Hfn.
+  pose proof (write_req_placed _ _ _ _ Hfn W) as Hpl.
+  split.
+  - eapply puts_inv_core; eauto. cbn [g_fid g_scanned g_wb].
+    split; [destruct (write_req_max _ _ _ _ W); lia|]. split; [discriminate|]. intros _.
+    split; [intros idx w []|].
+    intros k ts x idx Hts G Hp. right.
+    destruct (puts_winner _ _ pes _ _ _ _ _ I k ts x G) as [(N1 & _)|(O1 & O2)].
+    + exfalso. pose proof (puts_new_fid _ _ _ _ _ _ _ _ _ _ I W x _ _ N1 Hp). lia.
+    + destruct (HJ k ts x idx Hts O1 Hp) as [Hpend|Hd]; auto. exfalso.
+      apply in_map_iff in Hpend. destruct Hpend as ([idx' w] & Hfst & Hin). cbn in Hfst. subst idx'.
+      destruct (Hwb _ _ Hin) as [(rs & r & F1 & F2 & ->) _].
+      destruct (db_get_some _ _ _ _ Hwf O1) as (Xin & Xk & Xv & _).
+      destruct Hp as [Hp Hval].
+      destruct (i_tree _ _ _ _ _ _ _ I x Xin Hp) as (f' & i' & r' & A & B & (R1 & R2 & _)).
+      assert (r' = r) by (unfold fread in B; rewrite Hval, F1 in B; congruence). subst r'.
+      assert (Hw: In (norm r) (map snd (g_wb g))) by (apply in_map_iff; exists (idx, norm r); auto).
+      destruct (Forall2_in_l _ _ _ _ Hpl Hw) as (pe & Pin & (P1 & P2 & _)).
+      assert (C: cand k ts pe = true).
+      { apply cand_spec. cbn [norm with_val e_key e_ver] in P1, P2. split; [congruence|]. rewrite P2, R2. exact Xv. }
+      specialize (O2 pe Pin C). cbn [norm with_val e_ver] in P2. lia.
+  - (* the ghost-visible read does not change *)
+    intros k ts. unfold gvis.
+    destruct (db_get d k ts) as [e0|] eqn:G0.
+    + destruct (puts_winner_exists _ _ pes _ _ _ _ _ I k ts e0 G0) as (x & Gx & Hle).
+      rewrite Gx.
+      destruct (puts_winner _ _ pes _ _ _ _ _ I k ts x Gx) as [(N1 & N2 & N3)|(O1 & _)].
+      * destruct (Forall2_in_r _ _ _ _ Hpl N1) as (w & Hw & P).
+        destruct (Hws _ Hw) as [idx Hin]. pose proof (Hwb _ _ Hin) as Ok.
+        pose proof (placed_gderef _ _ _ _ P) as Gd. rewrite (wb_norm _ _ _ _ _ Ok) in Gd.
+        destruct P as (P1 & P2 & _). apply cand_spec in N2. destruct N2 as [N2k N2v].
+        destruct Ok as [_ Ok]. destruct (Ok ts ltac:(lia)) as (e1 & G1 & L1 & Q1).
+        rewrite <- P1, N2k, G0 in G1. injection G1 as <-.
+        rewrite G0 in N3. cbn [le_ver] in N3.
+        assert (Heq: e_ver e0 = e_ver w) by lia. specialize (Q1 Heq).
+        rewrite (gderef_dead1 _ _ _ now Gd), (gderef_dead1 _ _ _ now Q1).
+        now rewrite (gview_of_gderef _ _ _ Gd), (gview_of_gderef _ _ _ Q1).
+      * rewrite G0 in O1. injection O1 as <-.
+        destruct (db_get_some _ _ _ _ Hwf G0) as (Ein & _).
+        destruct (deleted_or_expired e0 now); auto. f_equal. unfold view.
+        change (deref (gv v') e0) with (gderef v' e0). change (deref (gv v) e0) with (gderef v e0).
+        now rewrite (puts_old_gderef _ _ _ _ _ _ _ _ _ _ I W e0 Ein).
+    + assert (Hn: forall pe, In pe pes -> cand k ts pe = false).
+      { intros pe Pin. destruct (cand k ts pe) eqn:C; auto. exfalso. apply cand_spec in C. destruct C as [C1 C2].
+        destruct (Forall2_in_r _ _ _ _ Hpl Pin) as (w & Hw & (P1 & P2 & _)).
+        destruct (Hws _ Hw) as [idx Hin]. destruct (Hwb _ _ Hin) as [_ Ok].
+        destruct (Ok ts ltac:(lia)) as (e1 & G1 & _). rewrite <- P1, C1, G0 in G1. discriminate. }
+      rewrite (db_get_puts _ _ _ _ Hwf), G0, (fold_win1_none _ _ _ Hn). reflexivity.
+Qed.
